@@ -26,12 +26,16 @@ func loaderText(items []J, t int) string {
 		switch it[0].(string) {
 		case "cl":
 			fmt.Fprintf(&sb, "%s(%d).\n", it[1], id)
-		case "dyn":
-			fmt.Fprintf(&sb, ":- dynamic(%s/1).\n", it[1])
-		case "disc":
-			fmt.Fprintf(&sb, ":- discontiguous(%s/1).\n", it[1])
-		case "multi":
-			fmt.Fprintf(&sb, ":- multifile(%s/1).\n", it[1])
+		case "dyn", "disc", "multi":
+			decl := map[string]string{"dyn": "dynamic", "disc": "discontiguous", "multi": "multifile"}[it[0].(string)]
+			switch {
+			case it[1] != "pq":
+				fmt.Fprintf(&sb, ":- %s(%s/1).\n", decl, it[1])
+			case k%2 == 0: // both predicates in one directive: a list, or a comma sequence
+				fmt.Fprintf(&sb, ":- %s([p/1, q/1]).\n", decl)
+			default:
+				fmt.Fprintf(&sb, ":- %s((q/1, p/1)).\n", decl)
+			}
 		case "init":
 			fmt.Fprintf(&sb, ":- initialization((write(%d), nl)).\n", id)
 		case "dir":
